@@ -8,6 +8,31 @@ import vf
 ALL_PROPS = ["Conservation", "FeesExact", "FeesAccumulate", "FeesRouted", "DebitAuthorised", "PrivilegedChange",
              "Atomic", "NonceStep", "DepositsBacked", "WithdrawalOnce"]
 ENTRY = "app::verif_harness::ledger::ledger_transitions"
+BLOCK_ENTRY = "app::verif_harness::ledger::ledger_blocks"
+
+
+def chain_blocks(tlines):
+    """Simulation output (one worker) lists the steps of each behaviour in order: cut it into blocks
+    tx ... tx end_block whose transactions are all constructible at the block's start state."""
+    blocks = []
+    cur = None
+    for t in tlines:
+        a = t["a"]
+        if cur is not None and vf.canon(t["s"]) != cur["at"]:
+            cur = None
+        if cur is None:
+            cur = {"s0": t["s"], "steps": [], "at": vf.canon(t["s"]), "ok": True}
+        if a["op"] == "tx":
+            # an honest block holds only transactions that execute (ProcessProposal rejects the others)
+            if a["out"] != "ok":
+                cur["ok"] = False
+            cur["steps"].append({"a": a, "t": t["t"]})
+            cur["at"] = vf.canon(t["t"])
+        elif a["op"] == "end_block":
+            if cur["ok"] and cur["steps"]:
+                blocks.append({"s0": cur["s0"], "steps": cur["steps"], "final": t["t"]})
+            cur = None
+    return blocks
 
 
 def tx_sig(t):
@@ -50,6 +75,32 @@ def run_ledger(prop, profiles, tier, seed, rule_extra="", verdict=None):
                     trans.setdefault((vf.canon(t["s"]), vf.canon(t["sc"]), vf.canon(t["a"])), t)
             cfgs.append({"cfg": cfg, "mode": "simulate" if "simulate" in kw else "exhaustive", "distinct": r.distinct,
                          "generated": r.generated, "new_distinct_transitions": len(trans) - n0, "wall_s": round(r.wall, 1)})
+    # ---- whole blocks through the real finalize_block + commit (every tx constructed against the block start state)
+    blocks = []
+    for p in profiles:
+        cfg = f"MC_Ledger_{p}_blocks.cfg"
+        r = vf.run_tlc("Ledger.tla", cfg, tag=f"{prop}-{cfg}", workers=1, timeout=3000, xmx="8g",
+                       simulate=4000 if tier == "quick" else 40000, depth=4, seed=seed)
+        if r.violation:
+            v.mismatch(f"spec:Ledger:{cfg}:{r.violation}", vf.tlc_violation_case(r))
+            continue
+        blocks += chain_blocks(r.tlines)
+        cfgs.append({"cfg": cfg, "mode": "simulate", "generated": r.generated, "blocks": len(blocks), "wall_s": round(r.wall, 1)})
+    seen = set()
+    uniq = []
+    for b in blocks:
+        k = vf.canon([b["s0"], [st["a"] for st in b["steps"]]])
+        if k not in seen:
+            seen.add(k)
+            uniq.append(b)
+    blocks = uniq[:120 if tier == "quick" else 2500]
+    bres = vf.run_harness_sharded("astria-sequencer", BLOCK_ENTRY, blocks, tag=f"{prop}-blocks-{tier}", shards=14,
+                                  timeout=3000) if blocks else []
+    if len(bres) != len(blocks):
+        raise vf.ToolError(f"block harness returned {len(bres)} results for {len(blocks)} blocks")
+    for res in bres:
+        for m in res["mismatches"]:
+            v.mismatch(m["sig"], {"detail": m["detail"], "harness": "sequencer_app/ledger(blocks)"})
     cases = list(trans.values())
     results = vf.run_harness_sharded("astria-sequencer", ENTRY, cases, tag=f"{prop}-{tier}", shards=14,
                                      timeout=3000) if cases else []
@@ -73,7 +124,8 @@ def run_ledger(prop, profiles, tier, seed, rule_extra="", verdict=None):
         samples.append(cases[0])
     cov = {
         "states": states, "transitions": transitions,
-        "traces_validated_against_impl": len(cases),
+        "traces_validated_against_impl": len(cases) + len(blocks),
+        "blocks_through_finalize_block": len(blocks),
         "samples": samples[:2],
         "evaluations": len(cases),
         "distinct_nontrivial": len(nt),
